@@ -265,11 +265,21 @@ def r3_4(U, rep):
     lo = hi = cat = None
     if isinstance(res, tuple) and len(res) == 2:
       for at in avn.free_symbols(asarr(res[1])) | _atoms_in(asarr(res[1])):
-        if isinstance(at, avn.Atom) and at.kind == 'clip':
-          a_ = avn.ATOM_ARGS[at][1]
-          if len(a_) >= 3 and Rat.lift(a_[0]).same(xv) and Rat.lift(a_[1]).is_const() and Rat.lift(a_[2]).is_const():
-            lo, hi = float(Rat.lift(a_[1]).constval()), float(Rat.lift(a_[2]).constval())
-            cat = at
+        # clip(x, lo, hi) is represented as min(max(x, lo), hi) (arguments sorted)
+        if isinstance(at, avn.Atom) and at.kind == 'min':
+          a_ = [Rat.lift(v_) for v_ in avn.ATOM_ARGS[at][1]]
+          his = [v_ for v_ in a_ if v_.is_const()]
+          inner = [v_ for v_ in a_ if not v_.is_const()]
+          if len(his) == 1 and len(inner) == 1:
+            mx = [n_ for n_ in avn.free_symbols(asarr([inner[0]])) | _atoms_in(asarr([inner[0]]))
+                  if isinstance(n_, avn.Atom) and n_.kind == 'max' and inner[0].same(Rat(avn.Poly.sym(n_)))]
+            if mx:
+              b_ = [Rat.lift(v_) for v_ in avn.ATOM_ARGS[mx[0]][1]]
+              los = [v_ for v_ in b_ if v_.is_const()]
+              xs = [v_ for v_ in b_ if not v_.is_const()]
+              if len(los) == 1 and len(xs) == 1 and xs[0].same(xv):
+                lo, hi = float(los[0].constval()), float(his[0].constval())
+                cat = at
     okb = lo is not None and -1 < lo < 0 < hi < 1
     rep.check(okb, 'R3.4', 'safe_%s JVP clips strictly inside (-1, 1)' % name,
               'the JVP of safe_%s does not clip its argument strictly inside (-1, 1): bounds %r, %r' % (name, lo, hi),
